@@ -39,6 +39,7 @@ const F_STALL: usize = 5;
 const F_BUS_HANDLE_DROPPED: usize = 6;
 const F_SOURCE_EOF: usize = 7;
 const F_DROP_NEVER_PULLED: usize = 8;
+const F_DROP_IN_UNWIND: usize = 9;
 
 const P_BACKLOG_8: usize = 0;
 const P_SIX_LIVE: usize = 1;
@@ -228,6 +229,7 @@ fn drive<F: TagFrame>(src: &mut Source, obs: &mut Observer) -> Result<(), Violat
         stall_left: 0,
         never: None,
     };
+    let unwind_drops = src.cfg("unwind_drops", 0, 1, |r| r.chance(1, 3) as i64) == 1;
     let (sig, pulls): (ProbeSignal<F>, Pulls) = ProbeSignal::new(3, end);
     let mut bus: Option<Bus<ProbeSignal<F>>> = Some(sig.bus());
     let mut outs: Vec<Option<Output<ProbeSignal<F>>>> = (0..SLOTS).map(|_| None).collect();
@@ -347,7 +349,23 @@ fn drive<F: TagFrame>(src: &mut Source, obs: &mut Observer) -> Result<(), Violat
                 if m.pulls_by[slot] == 0 && m.pulled > c {
                     obs.fault(F_DROP_NEVER_PULLED);
                 }
-                outs[slot] = None;
+                if unwind_drops {
+                    // the output is owned by a party that fails: it is dropped by the unwinding, the host
+                    // catches the failure and the other outputs carry on
+                    obs.fault(F_DROP_IN_UNWIND);
+                    let o = outs[slot].take();
+                    let r = std::panic::catch_unwind(std::panic::AssertUnwindSafe(move || {
+                        let _owned = o;
+                        std::panic::panic_any(crate::probe::InjectedCrash);
+                    }));
+                    if let Err(p) = r {
+                        if !p.is::<crate::probe::InjectedCrash>() {
+                            std::panic::resume_unwind(p);
+                        }
+                    }
+                } else {
+                    outs[slot] = None;
+                }
                 m.cursors[slot] = None;
             }
             O_DROP_BUS => {
@@ -442,6 +460,7 @@ impl Scenario for BusScenario {
             "bus handle dropped while outputs live",
             "source end-of-stream reached",
             "drop an output that never pulled while frames were pending for it",
+            "output dropped by an unwinding failure of its owner (caught by the host), the others carry on",
         ]
     }
     fn probes(&self) -> &'static [&'static str] {
